@@ -22,7 +22,7 @@ VIT_W = [-math.inf, 0.0, -1.0, -2.0, -3.0]
 def gen_shape(rng):
     recursive = rng.random() < 0.5
     shape = gen.random_shape(rng, recursive=recursive, n_nts=(1, 4), rules_per_nt=(1, 3), n_nodes=(0, 3), n_edges=(0, 4),
-                             max_arity=2, start_arity=(0, 2), dom_sizes=(1, 2, 3, 2), p_isolated=0.3, p_ruleless=0.2,
+                             max_arity=2, start_arity=(0, 2), dom_sizes=(1, 2, 3, 2), p_isolated=0.3, p_ruleless=0.2, p_rep_ext=0.08,
                              weights=lambda r: r.choice(VIT_W), max_cells=200)
     return shape
 
@@ -69,6 +69,10 @@ def run(ctx):
             shape = dict(nls=[1], terms=[[0]], nts=[[]], start=0,
                          rules=[dict(lhs=0, nodes=[], ext=[], edges=[('n', 0, [])]), dict(lhs=0, nodes=[0], ext=[], edges=[('t', 0, [0])])],
                          weights={0: [0.0]})
+        if k == 1:
+            # corpus: minimal input of the recorded finding D14b (root rule with a repeated external node)
+            shape = dict(nls=[2], terms=[[0, 0]], nts=[[0, 0]], start=0,
+                         rules=[dict(lhs=0, nodes=[0], ext=[0, 0], edges=[('t', 0, [0, 0])])], weights={0: [0.0, -1.0, -2.0, -1.0]})
         rec, lin = sccs_and_linearity(shape)
         rep = ctx.driver.ask(f'C02.iterate viterbi {gen.enc_shape(shape)} 200')
         t = Toks(rep)
@@ -119,8 +123,9 @@ def run(ctx):
                 w, total = derive_weight(fgg, d)
             except Exception as e:  # noqa
                 w, total = repr(e), False
-            meta.append((case, b, w, total))
-    for (case, b, w, total), rep in zip(meta, ctx.driver.ask_many(reqs)):
+            root_rep = len(set(d.rule.rhs.ext)) < len(d.rule.rhs.ext)
+            meta.append((case, b, w, total, root_rep))
+    for (case, b, w, total, root_rep), rep in zip(meta, ctx.driver.ask_many(reqs)):
         if isinstance(rep, Exception): raise rep
         if rep == 'none':
             ctx.fail('viterbi returned an ill-formed derivation (rule of the wrong nonterminal, node value outside its domain, '
@@ -131,8 +136,12 @@ def run(ctx):
             ctx.fail(f'the derivation returned by viterbi has log-weight {got}, the maximum is {b}', case, got, str(b), tags=['not-maximal'])
         ctx.evaluations += 1
         if not total or not isinstance(w, float) or w != float(b):
+            tags = ['derive-weight']
+            if isinstance(w, float) and w == float(b) and not total and root_rep:
+                # the weight is right; only the start edge's attachment nodes of a REPEATED external node stay unassigned (D14 seen through derive())
+                tags = ['derive-not-total', 'root-repeated-ext']
             ctx.fail(f'derive() of the viterbi derivation: total log-weight {w} (assignment total: {total}), maximum {b}', case, w, str(b),
-                     tags=['derive-weight'])
+                     tags=tags)
 
 
 def replay(ctx, rep):
